@@ -905,6 +905,10 @@ pub fn atf2<X: Val + Send + 'static>(ev: u32) -> impl Fn(Tok, X) -> Gate<Result<
 /// whose prefix `w::sh(callback)` is complete too and is followed by a token that looks like the start of a DSL operator.
 #[derive(Clone, Copy)]
 pub struct Sh<F>(pub F);
+/// identity with a free marker type parameter: `w::idf::<fn(u8) -> u8, _>(callback)` puts `->`, `,` and `>>` inside a turbofish
+pub fn idf<M, T>(t: T) -> T {
+    t
+}
 pub fn sh<F>(f: F) -> Sh<F> {
     Sh(f)
 }
